@@ -611,10 +611,21 @@ def _m_straggler(case, fails):
 # tie with the Lean protocol models (FB.Conc): every outcome the real code shows under the explored
 # schedules must be an outcome the model reaches under some schedule
 # ---------------------------------------------------------------------------------------------
-def model_outcomes(proto, threads):
+def model_outcomes(proto, threads, paths=None):
     from . import model
-    out, = model.run_cases([{'kind': 'conc', 'proto': proto, 'threads': threads}])
+    req = {'kind': 'conc', 'proto': proto, 'threads': threads}
+    if paths is not None:
+        req['paths'] = paths
+    out, = model.run_cases([req])
     return set(out['outcomes']), out['schedules']
+
+
+def classify_dirs(o):
+    """outcome of a scenario whose threads only build files, in the vocabulary of FB.ConcDirs"""
+    created = sorted(o.get('createdDirs') or [])
+    dirs = sorted(n[0] for n in o.get('tree') or [] if n[1] == 'dir')
+    done = all(r and r[0] == 'ok' for r in (o.get('results') or []))
+    return 'created=%s dirs=%s done=%s' % (','.join(created), ','.join(dirs), str(done).lower())
 
 
 def classify_p2(o):
